@@ -26,6 +26,8 @@
 //!           | h2 | h2z the same three services in the real `transport::Server` stack over an in-memory duplex
 //!                      pipe, reached through a real `Channel` (h2z: gzip accepted + sent on both sides)
 //!   par    := all streams of a version are open at the same time on clones of the one service
+//!   step   := (in place of seq / par) lock-step: the request stream stays open and request i+1 is sent only
+//!             after answer i was read (an interactive client such as grpcurl); a missing answer is `stalled`
 //!   ops    := the builder program, a word over r (next registration), n (next `with_service_name`),
 //!             i / o (`include_reflection_service(true / false)`); no i/o at all = the builder's default.
 //!             `inc`, `chosen`, `regs` above are what the documented API says the program configures (the last
@@ -115,8 +117,14 @@ enum Via {
 #[derive(Clone, Debug)]
 struct Drive {
     via: Via,
-    par: bool,
+    mode: Mode,
     ops: String,
+}
+#[derive(Clone, Copy, Debug, PartialEq)]
+enum Mode {
+    Seq,
+    Par,
+    Step,
 }
 impl Via {
     fn tok(self) -> &'static str {
@@ -271,7 +279,12 @@ fn render_case(c: &Case) -> String {
     if let Some(d) = &c.drive {
         o.push("drive".into());
         o.push(d.via.tok().into());
-        o.push(if d.par { "par" } else { "seq" }.into());
+        o.push(match d.mode {
+            Mode::Seq => "seq",
+            Mode::Par => "par",
+            Mode::Step => "step",
+        }
+        .into());
         o.push(if d.ops.is_empty() { "-".into() } else { d.ops.clone() });
     }
     o.join(" ")
@@ -416,9 +429,10 @@ impl<'a> P<'a> {
                 "h2z" => Via::H2z,
                 _ => return None,
             };
-            let par = match self.next()? {
-                "seq" => false,
-                "par" => true,
+            let mode = match self.next()? {
+                "seq" => Mode::Seq,
+                "par" => Mode::Par,
+                "step" => Mode::Step,
                 _ => return None,
             };
             let ops = match self.next()? {
@@ -429,7 +443,7 @@ impl<'a> P<'a> {
             if r != regs.len() || n != chosen.as_ref().map_or(0, |l: &Vec<String>| l.len()) || i != inc {
                 return None;
             }
-            Some(Drive { via, par, ops })
+            Some(Drive { via, mode, ops })
         } else {
             None
         };
@@ -718,7 +732,7 @@ macro_rules! version_mod {
             }
 
             /// one call of `ServerReflectionInfo` through the generated client over `t`
-            async fn one_stream<T>(t: T, gzip: bool, stream: &[Req], ctx: &Ctx) -> Vec<String>
+            async fn one_stream<T>(t: T, gzip: bool, step: bool, stream: &[Req], ctx: &Ctx) -> Vec<String>
             where
                 T: tonic::client::GrpcService<tonic::body::Body>,
                 T::Error: Into<StdError>,
@@ -748,7 +762,16 @@ macro_rules! version_mod {
                 if gzip {
                     client = client.send_compressed(CompressionEncoding::Gzip).accept_compressed(CompressionEncoding::Gzip);
                 }
-                let resp = client.server_reflection_info(tokio_stream::iter(reqs)).await;
+                // lock-step: the requests go through a channel, one at a time, each after the previous answer
+                let (tx, rx) = tokio::sync::mpsc::channel::<pb::ServerReflectionRequest>(1);
+                let mut tx = Some(tx);
+                let resp = if step {
+                    client.server_reflection_info(tokio_stream::wrappers::ReceiverStream::new(rx)).await
+                } else {
+                    tx = None;
+                    drop(rx);
+                    client.server_reflection_info(tokio_stream::iter(reqs)).await
+                };
                 let mut inbound = match resp {
                     Err(st) => {
                         o.push(format!("call-err {}", st.code() as i32));
@@ -759,7 +782,27 @@ macro_rules! version_mod {
                 };
                 let mut idx = 0usize;
                 loop {
-                    match inbound.message().await {
+                    if step {
+                        if idx < sent.len() {
+                            if let Some(tx) = &tx {
+                                let _ = tx.send(sent[idx].clone()).await;
+                            }
+                        } else {
+                            tx = None; // all requests sent and answered: end the request stream
+                        }
+                    }
+                    let next = if step {
+                        match tokio::time::timeout(std::time::Duration::from_secs(5), inbound.message()).await {
+                            Ok(r) => r,
+                            Err(_) => {
+                                o.push("stalled".into());
+                                break;
+                            }
+                        }
+                    } else {
+                        inbound.message().await
+                    };
+                    match next {
                         Ok(Some(m)) => {
                             let echo = idx < sent.len() && m.valid_host == sent[idx].host && m.original_request.as_ref() == Some(&sent[idx]);
                             o.push(if echo { "r1".into() } else { "r0".into() });
@@ -806,7 +849,7 @@ macro_rules! version_mod {
             }
 
             /// every stream of the case over clones of `t`: one after the other, or (`par`) all open at once
-            pub async fn run<T>(t: T, gzip: bool, par: bool, streams: &[Vec<Req>], ctx: &Ctx) -> String
+            pub async fn run<T>(t: T, gzip: bool, mode: Mode, streams: &[Vec<Req>], ctx: &Ctx) -> String
             where
                 T: tonic::client::GrpcService<tonic::body::Body> + Clone,
                 T::Error: Into<StdError>,
@@ -814,15 +857,16 @@ macro_rules! version_mod {
                 <T::ResponseBody as http_body::Body>::Error: Into<StdError> + Send,
             {
                 let mut out: Vec<String> = vec!["ok".into()];
-                if par {
+                let step = mode == Mode::Step;
+                if mode == Mode::Par {
                     let futs: Vec<LocalFut<'_, Vec<String>>> =
-                        streams.iter().map(|s| Box::pin(one_stream(t.clone(), gzip, s, ctx)) as LocalFut<'_, Vec<String>>).collect();
+                        streams.iter().map(|s| Box::pin(one_stream(t.clone(), gzip, step, s, ctx)) as LocalFut<'_, Vec<String>>).collect();
                     for toks in join_all(futs).await {
                         out.extend(toks);
                     }
                 } else {
                     for s in streams {
-                        out.extend(one_stream(t.clone(), gzip, s, ctx).await);
+                        out.extend(one_stream(t.clone(), gzip, step, s, ctx).await);
                     }
                 }
                 out.join(" ")
@@ -880,13 +924,15 @@ pub fn execute(case: &str) -> String {
     let ctx1 = Ctx { all: all1, extras: extras.clone(), sort_services };
     let ctx1a = Ctx { all: all1a, extras, sort_services };
     let (via, par) = match &c.drive {
-        Some(d) => (d.via, d.par),
-        None => (Via::Direct, false),
+        Some(d) => (d.via, d.mode),
+        None => (Via::Direct, Mode::Seq),
     };
     let gzip = via == Via::H2z;
     let b1 = ver1::build(&c, &encoded, gzip);
     let b1a = ver1a::build(&c, &encoded, gzip);
-    let rt = tokio::runtime::Builder::new_current_thread().enable_all().build().unwrap();
+    // virtual time: nothing here waits for a timer except the lock-step client's stall watchdog, which
+    // therefore fires exactly when no task can make progress any more (deterministic, costs no real time)
+    let rt = paused_rt();
     let (a, b) = match (b1, b1a) {
         (Ok(s1), Ok(s1a)) if via != Via::Direct => {
             // the route names the two generated servers register under (`NamedService::NAME`)
@@ -1431,9 +1477,13 @@ fn gen_drive(rng: &mut Rng, c: &Case) -> Drive {
         5 => Via::H2z,
         _ => Via::Direct,
     };
-    let par = rng.chance(1, 4);
+    let mode = match rng.below(8) {
+        0 | 1 => Mode::Par,
+        2 => Mode::Step,
+        _ => Mode::Seq,
+    };
     let ops = if rng.chance(1, 2) { canonical_ops(c) } else { gen_ops(rng, c.regs.len(), c.chosen.as_ref().map_or(0, |l| l.len()), c.inc) };
-    Drive { via, par, ops }
+    Drive { via, mode, ops }
 }
 
 fn finish(kind: &str, rng: &mut Rng, inc: bool, chosen: Option<Vec<String>>, regs: Vec<Reg>, dense: bool) -> String {
@@ -1448,7 +1498,7 @@ fn finish(kind: &str, rng: &mut Rng, inc: bool, chosen: Option<Vec<String>>, reg
 }
 
 /// the same, driven in a given way
-fn finish_with(kind: &str, rng: &mut Rng, inc: bool, chosen: Option<Vec<String>>, regs: Vec<Reg>, via: Via, par: bool, ops: Option<&str>) -> String {
+fn finish_with(kind: &str, rng: &mut Rng, inc: bool, chosen: Option<Vec<String>>, regs: Vec<Reg>, via: Via, mode: Mode, ops: Option<&str>) -> String {
     let own = if inc { Some(own_files()) } else { None };
     let streams = {
         let files = all_files(&regs);
@@ -1456,7 +1506,7 @@ fn finish_with(kind: &str, rng: &mut Rng, inc: bool, chosen: Option<Vec<String>>
     };
     let mut c = Case { inc, chosen, regs, streams, own, drive: None };
     let ops = ops.map(|s| s.to_string()).unwrap_or_else(|| canonical_ops(&c));
-    c.drive = Some(Drive { via, par, ops });
+    c.drive = Some(Drive { via, mode, ops });
     format!("{} {}", kind, render_case(&c))
 }
 
@@ -1582,7 +1632,7 @@ fn corpus(rng: &mut Rng) -> Vec<String> {
     // 13. how the case is driven: every transport x sequential / concurrent streams
     let big = fl("big.proto", Some("big"), 5, vec![m("Big", vec![], vec![], &["f"], &["o"])], vec![], vec![sv("BigSvc", &["Get"])]);
     for via in [Via::Direct, Via::Routes, Via::H2, Via::H2z] {
-        for par in [false, true] {
+        for par in [Mode::Seq, Mode::Par, Mode::Step] {
             out.push(finish_with("corpus", rng, true, None, vec![Reg::S(vec![f1.clone()]), Reg::E(vec![big.clone(), f1_nopkg.clone()])], via, par, None));
             out.push(finish_with("corpus", rng, false, Some(vec!["pkg.sub.Svc".into()]), vec![Reg::E(vec![f1.clone()])], via, par, None));
         }
@@ -1591,11 +1641,11 @@ fn corpus(rng: &mut Rng) -> Vec<String> {
     //     include toggled (the last call counts), names before registrations
     for (inc, ops) in [(true, "rr"), (true, "irr"), (true, "roir"), (false, "rro"), (false, "orr"), (false, "irro"), (true, "oorri"), (false, "iroir o")] {
         let ops: String = ops.chars().filter(|c| *c != ' ').collect();
-        out.push(finish_with("corpus", rng, inc, None, vec![Reg::S(vec![f1.clone()]), Reg::E(vec![f1_emptypkg.clone()])], Via::Direct, false, Some(&ops)));
+        out.push(finish_with("corpus", rng, inc, None, vec![Reg::S(vec![f1.clone()]), Reg::E(vec![f1_emptypkg.clone()])], Via::Direct, Mode::Seq, Some(&ops)));
     }
     for (inc, ops) in [(true, "nrnr"), (true, "nnrr"), (false, "ornrn"), (false, "nonrir o"), (true, "rnorni")] {
         let ops: String = ops.chars().filter(|c| *c != ' ').collect();
-        out.push(finish_with("corpus", rng, inc, Some(vec!["pkg.sub.Svc".into(), "nope".into()]), vec![Reg::S(vec![f1.clone()]), Reg::E(vec![f1_emptypkg.clone()])], Via::Direct, false, Some(&ops)));
+        out.push(finish_with("corpus", rng, inc, Some(vec!["pkg.sub.Svc".into(), "nope".into()]), vec![Reg::S(vec![f1.clone()]), Reg::E(vec![f1_emptypkg.clone()])], Via::Direct, Mode::Seq, Some(&ops)));
     }
     // 11. empty everything
     out.push(finish("corpus", rng, false, None, vec![], false));
